@@ -35,7 +35,7 @@ ROPE_VISITOR = "rope.base.ast.RopeNodeVisitor"
 Val = FrozenSet[str]
 EMPTY: Val = frozenset()
 
-PASS_THROUGH_CALLS = {"list", "tuple", "reversed", "sorted", "enumerate", "zip", "iter", "set", "chain", "from_iterable",
+PASS_THROUGH_CALLS = {"next", "deque", "list", "tuple", "reversed", "sorted", "enumerate", "zip", "iter", "set", "chain", "from_iterable",
                       "filter", "OrderedSet", "str"}
 STR_METHODS = {"split", "strip", "lower", "upper", "rsplit", "partition", "rpartition", "lstrip", "rstrip", "replace"}
 LIST_MUT = {"append", "extend", "insert", "add", "update"}
@@ -79,6 +79,7 @@ class VGC:
         self.idx = idx
         self.inline_bound = inline_bound
         self._sum_cache: Dict[Tuple[str, str], Summary] = {}
+        self.sink_methods: Set[str] = set()
 
     # ------------------------------------------------------------------ visitors
     def is_visitor(self, cls_q: str) -> bool:
@@ -359,6 +360,12 @@ class VGC:
             if anyval:
                 out.add(Effect("bind", f"[{f.value.attr}]", anyval, ctx, c.lineno, m.name))
             return
+        # --- designated sink methods (e.g. the patched-AST walker's _handle(node, children))
+        if is_self_attr(f) and name in self.sink_methods:
+            rest = argvals[1:] if argvals and "" in argvals[0] else argvals
+            v = frozenset().union(*rest, *kwvals.values()) if (rest or kwvals) else EMPTY
+            out.add(Effect("sink", name, v, ctx, c.lineno, m.name))
+            return
         # --- self.method(...): inline
         if is_self_attr(f) or (isinstance(f, ast.Attribute) and isinstance(f.value, (ast.Name, ast.Attribute))
                                and self.idx.resolve(m.unit.modname, f.value) in self.idx.classes and c.args
@@ -387,7 +394,12 @@ class VGC:
                 # the dispatcher itself
                 if name == "visit" and callee.qualname.startswith(ROPE_VISITOR):
                     return
-                self._inline(cls_q, callee, env2, ctx, depth + 1, out, vis_env)
+                post = self._inline(cls_q, callee, env2, ctx, depth + 1, out, vis_env)
+                # call-by-reference: list parameters extended inside the callee are visible to the caller
+                if post:
+                    for p, a in zip(ps, args):
+                        if isinstance(a, ast.Name) and post.get(p) and not post[p] <= env.get(a.id, EMPTY):
+                            env[a.id] = env.get(a.id, EMPTY) | post[p]
                 return
             if anyval:
                 out.add(Effect("bind" if name.startswith("_") and "visit" not in name else "escape",
@@ -428,10 +440,11 @@ class VGC:
         key = (cls_q, callee.qualname, tuple(sorted((k, tuple(sorted(v))) for k, v in env2.items())), ctx)
         stack = self.__dict__.setdefault("_stack", [])
         if key in stack:
-            return
+            return None
         stack.append(key)
         try:
             self._inline2(cls_q, callee, env2, ctx, depth, out, vis_env)
+            return env2
         finally:
             stack.pop()
 
